@@ -289,7 +289,7 @@ public:
 		else if (op == "dropall") { dropAll = true; }
 		else if (op == "tap") { Val &a = get(t[1]); if (a.isBit()) tap(a.b()); else tap(a.u()); }
 		else if (op == "attr") { Val &a = get(t[1]); SignalAttributes at; at.maxFanout = 8; if (a.isBit()) attribute(a.b(), at); else attribute(a.u(), at); }
-		else if (op == "stimkey") { /* read by the trace runner */ }
+		else if (op == "stimkey" || op == "clockcfg") { /* read by the main program */ }
 		else if (op == "comment") { /* comments attach to subsequently created nodes */ }
 		else throw std::runtime_error("unknown statement " + op);
 	}
